@@ -267,6 +267,9 @@ pub fn to_card(c: &C) -> Card {
             "nan" => f64::NAN,
             "inf" => f64::INFINITY,
             "-inf" => f64::NEG_INFINITY,
+            // non-zero reals far below any tolerance (only their truthiness is specified)
+            "tiny" => 2f64.powi(-60),
+            "-tiny" => -(2f64.powi(-200)),
             _ => dyadic_to_f64(c.i, c.e),
         }),
         "StringLiteral" => CardBody::StringLiteral(c.s.clone()),
